@@ -439,8 +439,9 @@ def collapseAll (files : List (List Nat)) : Nat → List Nat → Run
     else
       let ok := insts.takeWhile (· < files.length)
       if ok.length < insts.length then
-        -- `fsys.read_kv1` raises FileNotFoundError; that instance entity was already removed
-        ⟨ok.length, .missing, (insts.length - ok.length - 1) + (ok.flatMap (children files)).length⟩
+        -- `fsys.read_kv1` raises FileNotFoundError; the instance entity is removed only after its
+        -- file was loaded (fix `C17-missing-file-keeps-instance`), so it is still in the map
+        ⟨ok.length, .missing, (insts.length - ok.length) + (ok.flatMap (children files)).length⟩
       else
         let r := collapseAll files limit (insts.flatMap (children files))
         { r with collapses := insts.length + r.collapses }
